@@ -113,16 +113,21 @@ def bagAttrs (attrs : Bytes) : Option (Option (List Nat) × Option Bytes × Opti
     let ac ← children a.2
     match ac with
     | [(0x06, oid), (0x31, vals)] =>
+      -- the SET contents are unmarshalled strictly: exactly one value; any tag is taken for the two string
+      -- attributes (RawValue), localKeyId must be an OCTET STRING
       if oid = oidFriendlyName then
-        let (_, v, _) ← tlv vals
+        let (_, v, rest) ← tlv vals
+        if !rest.isEmpty then none
         let rs ← decodeBMPString v
         pure (some rs, acc.2.1, acc.2.2)
       else if oid = oidCspName then
-        let (_, v, _) ← tlv vals
+        let (_, v, rest) ← tlv vals
+        if !rest.isEmpty then none
         let rs ← decodeBMPString v
         pure (acc.1, acc.2.1, some rs)
       else if oid = oidLocalKeyId then
-        let (_, v, _) ← tlv vals
+        let (tg, v, rest) ← tlv vals
+        if tg ≠ 0x04 ∨ !rest.isEmpty then none
         pure (acc.1, some v, acc.2.2)
       else pure acc
     | _ => none) (none, none, none)
